@@ -40,3 +40,24 @@ Theorem C07_exit_cascade : forall mc children fuel ev n r rn g,
   exit_regions mc children fuel ev n r rn g = iterM (exit_step mc children fuel ev) (seqn r n) rn g.
 Proof. exact exit_regions_seq. Qed.
 Print Assumptions C07_exit_cascade.
+
+(* ---- leaving a submachine, any nesting depth (the specification and its proof: Lemmas_Cascade.v, see also C02) ---- *)
+From Msm Require Import Lemmas_Quiesce Lemmas_Shape Lemmas_Cascade Lemmas_Rows.
+
+(* the substates of a submachine state (recursively, innermost first) are exited before the submachine itself; nothing
+   else runs: the trace is exactly exit_spec's, for every definition and depth *)
+Theorem C07_leaving_exits_substates_first_back : forall cf parents, c_be cf <> Mp11 ->
+  forall mc contained fuel ev rn g,
+  wk mc rn -> g_plan g = [] -> g_up g = [] ->
+  co_exit_pre (build cf parents contained mc) fuel ev rn g =
+    (Some tt, snd (exit_spec mc ev rn), bump g (fst (exit_spec mc ev rn))).
+Proof. exact back_exit_cascade. Qed.
+Print Assumptions C07_leaving_exits_substates_first_back.
+
+Theorem C07_leaving_exits_substates_first_mp11 : forall cf parents, c_be cf = Mp11 ->
+  forall mc contained fuel ev rn g,
+  wk mc rn -> g_plan g = [] -> g_up g = [] ->
+  co_exit_pre (build cf parents contained mc) fuel ev rn g =
+    (Some tt, snd (mexit_spec mc ev rn), bump g (fst (mexit_spec mc ev rn))).
+Proof. exact mp11_exit_cascade. Qed.
+Print Assumptions C07_leaving_exits_substates_first_mp11.
